@@ -52,3 +52,17 @@ func TestCounts(t *testing.T) {
 		t.Fatal("count")
 	}
 }
+
+func TestRunes(t *testing.T) {
+	n := 0
+	Runes(0x80, 0x10FFFF, func(r rune) bool {
+		if len(string(r)) < 2 || string(r) == "�" && r != 0xFFFD {
+			t.Fatalf("rune %#x has no proper encoding", r)
+		}
+		n++
+		return true
+	})
+	if n != 0x110000-0x80-0x800 {
+		t.Fatalf("got %d runes", n)
+	}
+}
